@@ -283,7 +283,7 @@ func execDecide(in, out string) {
 func documentedConcrete(st *decideState) (bool, string) {
 	var r row
 	r.hostNet = st.spec.HostNetwork
-	r.nsIgnored = inject.IgnoredNamespaces.Contains(st.meta.Namespace)
+	r.nsIgnored = isDocumentedIgnored(st.meta.Namespace)
 	class := func(m map[string]string, k string) int {
 		v, ok := m[k]
 		switch {
